@@ -2,6 +2,7 @@
   C07 — Prerequisites reach each scheduler intact, so no job starts on unfinished inputs.
 -/
 import GwfProps.Lemmas.SchedulerLemmas
+import GwfProps.Lemmas.LsfLemmas
 import GwfProps.C05
 namespace Gwf.C07
 open Gwf Gwf.Sch
@@ -29,6 +30,18 @@ theorem read_render_local (ids : List (List Char)) : readDeps .localPool (render
 /-- no prerequisite, no flag at all — on every backend -/
 theorem render_nil (b : Backend) : renderDeps b [] = [] ∧ readDeps b [] = some [] := by
   cases b <;> simp [renderDeps, readDeps]
+
+/-- **LSF: `-w "done(a) && done(b) && …"`** — for every number of prerequisites -/
+theorem read_render_lsf (ids : List (List Char)) (hne : ids ≠ []) (hwf : ∀ i ∈ ids, wellFormedId i = true) :
+    readDeps .lsf (renderDeps .lsf ids) = some ids := by
+  have he : ids.isEmpty = false := by cases ids <;> simp_all
+  have hfun : (fun i => "done(".toList ++ i ++ [')']) = wrapDone := rfl
+  simp only [renderDeps, he, Bool.false_eq_true, if_false, readDeps, if_true, hfun]
+  apply readDone_render ids _ hne
+  · have := intercalate_length_ge (ids.map wrapDone) " && ".toList
+      (by intro x hx; obtain ⟨i, _, rfl⟩ := List.mem_map.1 hx; simp [wrapDone])
+    simpa using this
+  · exact fun i hi => wf_not_mem i ')' (hwf i hi) (Or.inr (Or.inr (Or.inr (Or.inl rfl))))
 
 /-- LSF done() conjunctions, kernel-checked instances (one, two and three prerequisites) -/
 example : readDeps .lsf (renderDeps .lsf ["101".toList]) = some ["101".toList] := by decide
@@ -86,6 +99,34 @@ theorem parseId_slurm_sge (ds : List Char) (hne : ds ≠ []) (hd : ∀ c ∈ ds,
   have e4 := digit_ne c ')' h (by decide)
   have e5 := digit_ne c '&' h (by decide)
   simp [e1, e2, e3, e4, e5, hws c hc]
+
+theorem strip_line (c d : Char) (mid : List Char) (hc : isWsChar c = false) (hd : isWsChar d = false) :
+    strip (c :: mid ++ [d] ++ ['\n']) = c :: mid ++ [d] := by
+  simp only [strip]
+  have h1 : (c :: mid ++ [d] ++ ['\n']).dropWhile isWsChar = c :: mid ++ [d] ++ ['\n'] := by
+    simp [List.dropWhile, hc]
+  rw [h1]
+  have h2 : (c :: mid ++ [d] ++ ['\n']).reverse = '\n' :: d :: (c :: mid).reverse := by simp
+  rw [h2]
+  have hws : isWsChar '\n' = true := by decide
+  simp [List.dropWhile, hws, hd]
+
+/-- **LSF: the id gwf stores is the number in `Job <n> is submitted …`** whatever follows it -/
+theorem parseId_lsf (ds tail : List Char) (d : Char) (hne : ds ≠ []) (hd : ∀ c ∈ ds, isDigit c = true)
+    (hlast : isWsChar d = false) :
+    parseId .lsf ("Job <".toList ++ ds ++ '>' :: tail ++ [d] ++ ['\n']) = some ds := by
+  have hJ : isWsChar 'J' = false := by decide
+  have e : "Job <".toList ++ ds ++ '>' :: tail ++ [d] ++ ['\n']
+      = 'J' :: ("ob <".toList ++ ds ++ '>' :: tail) ++ [d] ++ ['\n'] := by simp
+  rw [parseId, e, strip_line 'J' d _ hJ hlast]
+  have e2 : 'J' :: ("ob <".toList ++ ds ++ '>' :: tail) ++ [d]
+      = 'J' :: 'o' :: 'b' :: ' ' :: '<' :: (ds ++ '>' :: (tail ++ [d])) := by simp
+  rw [e2]
+  have h := takeWhile_stop isDigit '>' (tail ++ [d]) (by decide) ds hd
+  simp only [lsfId, h.1, h.2]
+  cases ds with
+  | nil => exact absurd rfl hne
+  | cons a b => simp
 
 example : parseId .lsf "Job <4711> is submitted to default queue <normal>.\n".toList = some "4711".toList := by decide
 example : parseId .slurm "123\n".toList = some "123".toList := by decide
